@@ -270,6 +270,7 @@ class ContractMixin:
             return unbox(c.result, f(*flat) if flat else CONSTS.get("fn", c.qualname), st)
         # ghost lets of the callee contract
         cmod = self.contract_module(c)
+        param_env = dict(env)  # the arguments proper (ghost lets are not arguments of the function)
         for name, expr in c.lets:
             env[name] = self.spec_value(expr, st, env, module=cmod)
         # preconditions become obligations of the caller
@@ -300,13 +301,13 @@ class ContractMixin:
         if c.generator:
             rs = c.result if c.result.kind == "seq" else Spec("seq", c.result)
             if getattr(c, "functional", False):
-                flat = [box(v, st) for v in env.values() if v.kind != "pyobj"]
+                flat = [box(v, st) for v in param_env.values() if v.kind != "pyobj"]
                 f = uf("fn:" + (getattr(c, "fn_name", None) or c.qualname), *([V] * len(flat)), V)
                 res = Sym("seq", unS(f(*flat) if flat else CONSTS.get("fn", c.qualname)), rs)
             else:
                 res = Sym("seq", self.fresh_term(st, "yielded", SeqV), rs)
         else:
-            res = self.fresh_result(c, env, st)
+            res = self.fresh_result(c, param_env, st)
         env2 = dict(env)
         env2["result"] = res
         if c.generator:
